@@ -117,11 +117,14 @@ def run_check(pid, tier, seed, harness_specs, level_note, args):
             for t, o in zip(tvs, outs):
                 total['tv'] += 1
                 exp = t['expect']
-                same = all(e is None or e == a for e, a in zip(exp, o)) and len(exp) == len(o)
+                if t.get('post') is not None:
+                    same = hz.tv_compare(t, o)
+                else:
+                    same = all(e is None or e == a for e, a in zip(exp, o)) and len(exp) == len(o)
                 if not same:
                     total['tv_bad'] += 1
                     if len(tv_bad_examples) < 3:
-                        tv_bad_examples.append({'script': t['script'], 'expected': exp, 'native': o})
+                        tv_bad_examples.append({'diff': t.get('diff'), 'script': t['script'], 'expected': exp, 'native': o})
             if tv_bad_examples:
                 broken.append('%s: translator validation mismatch (executor vs native build): %s' % (hz.name, json.dumps(jsonable(tv_bad_examples[0]))[:1500]))
         # ---- violations: group by (law, role), replay a few of each natively
